@@ -111,6 +111,7 @@ def replay(history, collect=None):
     for k in sorted(wb['cells']):
         si, c, r = (int(x) for x in k.split(':'))
         plain[k] = wbk.outcome(lambda: bystander.get_cell(wbk.Cell(si, c - 1, r - 1)).value)
+    plain_sizes = json.loads(json.dumps(bystander.get_executed_class().get_sheets_size()))
     ex = tr.executor()
     overrides = {}
     fails = []
@@ -141,6 +142,11 @@ def replay(history, collect=None):
                     continue
                 raise env.HarnessError(f'C04: edited workbook does not translate: {fresh}')
             fex = fresh[1].executor()
+            now_sizes = bystander.get_executed_class().get_sheets_size()
+            if now_sizes != plain_sizes:
+                fails.append({'case': {**history, 'steps': history['steps'][:n + 1]}, 'expected': plain_sizes, 'actual': json.loads(json.dumps(now_sizes)),
+                              'relation': 'override-equals-edit', 'bucket': 'bystander-executor-sees-sizes', 'extra': {'step': n}})
+                return fails
             for k, want_plain in plain.items():
                 si, c, r = (int(x) for x in k.split(':'))
                 got_plain = wbk.outcome(lambda: bystander.get_cell(wbk.Cell(si, c - 1, r - 1)).value)
